@@ -50,6 +50,12 @@ def run(repo, rep):
              'an empty result queues Evt17 and releases the transport (a test on anything else -- the reassembly buffer, a '
              'length -- misses a close that arrives inside a PDU)', 1)
     rep.rule('C13.K5', 'every exit of run leaves the transport closed (closed explicitly, or proven absent)', 1)
+    rep.rule('C13.K8', 'the ARTIM timer does what the actions that arm it rely on: start() and restart() leave it running from '
+             'now whatever its state was, stop() clears it, and expiry is reported exactly when it is running and the limit has '
+             'passed -- so every wait for the peer that the state machine bounds by ARTIM (C04/C14 decide which) ends (same '
+             'analysis as C05.G4)', 4)
+    from .c05 import check_timer
+    check_timer(repo, pm, rep, rule='C13.K8')
 
     decode_set = pdu_decode_raise_set(repo)
     # K1
